@@ -72,6 +72,8 @@ type Action struct {
 	Module string `json:"module,omitempty"`
 	// raw precompile call (kind "rawCall"): Module names the precompile, Data is the calldata (hex)
 	Data string `json:"data,omitempty"`
+	// nextBlock: consensus keys (pool indexes) whose validators did not sign the previous block
+	Absent []int `json:"absent,omitempty"`
 }
 
 func (a Action) String() string {
@@ -129,6 +131,8 @@ type Machine struct {
 	lastEth      *ethBuilt               // the last Ethereum transaction sent by an "ethTx" action
 	blockGas     uint64                  // gas limits of the Ethereum transactions included in the block in progress
 	rawCapBits   int                     // cap on integer arguments of raw precompile calls (listed overflow findings)
+	absentNext   []int                   // consensus keys missing from the last commit of the next block
+	downSticky   []int                   // generator memory: the keys that were down in the previous downtime block
 }
 
 type avsCommitRec struct {
@@ -281,6 +285,7 @@ func (m *Machine) Apply(a *Action) (Outcome, error) {
 		if dt <= 0 {
 			dt = 1
 		}
+		m.absentNext = a.Absent
 		if err := m.nextBlock(dt); err != nil {
 			return Outcome{}, err
 		}
@@ -534,7 +539,17 @@ func (m *Machine) nextBlock(dt int) error {
 			}
 		}
 	}
-	c.BeginBlock(time.Duration(dt)*time.Second, nil)
+	var opts *sim.BlockOpts
+	if len(m.absentNext) > 0 {
+		opts = &sim.BlockOpts{Absent: map[string]bool{}}
+		for _, k := range m.absentNext {
+			if k >= 0 && k < len(m.Keys) {
+				opts.Absent[string(m.Keys[k].ConsAddr())] = true
+			}
+		}
+		m.absentNext = nil
+	}
+	c.BeginBlock(time.Duration(dt)*time.Second, opts)
 	return nil
 }
 
